@@ -214,6 +214,22 @@ def run(chk):
                             else:
                                 a, b = pd.read_parquet(outpath), pd.read_parquet(lout)
                                 same = list(a.columns) == list(b.columns) and a.astype(str).equals(b.astype(str))
+                        if same and os.path.exists(outpath):
+                            # the records the file names are the records the library's result says failed (by position in the input)
+                            try:
+                                fdf_ = pd.read_csv(outpath) if outpath.endswith('.csv') else pd.read_parquet(outpath)
+                                det_ = lv.detected()
+                                if 'RowNumber' in fdf_.columns and det_ is not None and len(det_) == len(fdf_):
+                                    lab_ = [int(x_) for x_ in (det_['RowNumber'] if 'RowNumber' in det_.columns else det_.index)]
+                                    pos_ = {int(l_): i_ + 1 for i_, l_ in enumerate(ldf.index.tolist())}
+                                    wantrows = [pos_.get(l_, l_) for l_ in lab_] if 'RowNumber' not in det_.columns else lab_
+                                    if kw['write_all']:
+                                        wantrows = list(range(1, len(fdf_) + 1))
+                                    if [int(x_) for x_ in fdf_['RowNumber']] != wantrows:
+                                        same = False
+                                        info['rownumbers'] = {'file': [int(x_) for x_ in fdf_['RowNumber']][:20], 'library_result': wantrows[:20]}
+                            except Exception as ex_:
+                                info['rownumber_check_error'] = '%s: %s' % (type(ex_).__name__, str(ex_)[:120])
                         ev['sameaslib'] = bool(same)
             except Exception as ex:
                 ev['raised'] = 'harness-lib-call %s' % type(ex).__name__
